@@ -17,13 +17,19 @@ def run_cancel(case):
     from txtorcon.torcontrolprotocol import TorDisconnectError
     cur = []
 
+    nwritten = [0]
+
     class Tr(StringTransport):
         def write(self, data):
             line = bytes(data)
             if line.startswith(b'GETINFO c') and line.endswith(b'\r\n'):
-                cur.append(['wrote', int(line[9:-2].split(b' ')[0])])
+                k = int(line[9:-2].split(b' ')[0])
+            elif line == b'\r\n' and nwritten[0] in case.get('empty', []):
+                k = nwritten[0]            # an empty command line: the next command in submission order
             else:
-                cur.append(['wrote', 999999])
+                k = 999999
+            cur.append(['wrote', k])
+            nwritten[0] = k + 1
 
     proto = TorControlProtocol()
     proto.connectionMade = lambda: None
@@ -73,6 +79,8 @@ def run_cancel(case):
         if k in case.get('raw', []):
             # the caller passes bytes, one of them >= 128 (queue_command accepts bytes as they are)
             d = proto.queue_command(b'GETINFO c%d \xff\xe9' % k)
+        elif k in case.get('empty', []):
+            d = proto.queue_command('')             # an empty command line
         else:
             d = proto.queue_command('GETINFO c%d' % k)
         ds.append(d)
@@ -93,8 +101,11 @@ def run_cancel(case):
         proto.when_disconnected().addBoth(told)     # the value is a Failure: it travels the errback chain
 
     out = []
-    for o in case['ops']:
+    for i, o in enumerate(case['ops']):
         cur = []
+        if case.get('close_before') == i:
+            # the application closes the connection itself (as quit() does); the loss is delivered later
+            proto.transport.loseConnection()
         try:
             if o[0] == 'submit':
                 do_submit()
@@ -187,7 +198,16 @@ def gen_cancel(rng):
     if lose_at is not None and not lost:
         ops.append(['lose'])
     raw = [k for k in range(n) if rng.random() < 0.15]
-    return {'fam': 'cancel', 'ops': ops, 'lazy': lazy, 'raw': raw}
+    empty = [k for k in range(n) if k not in raw and rng.random() < 0.08]
+    c = {'fam': 'cancel', 'ops': ops, 'lazy': lazy, 'raw': raw, 'empty': empty}
+    if rng.random() < 0.25:
+        # a locally started close some operations before the loss is delivered
+        # (no reply may follow the close: Twisted's line receiver drops data once the transport is closing)
+        li = [i for i, o in enumerate(ops) if o[0] == 'lose']
+        if li:
+            lo = max([i + 1 for i, o in enumerate(ops[:li[0]]) if o[0] == 'reply'] + [0])
+            c['close_before'] = rng.randrange(lo, li[0] + 1)
+    return c
 
 
 class P(core.Prop):
@@ -208,7 +228,8 @@ class P(core.Prop):
             'loss at a random position in 85%, submissions and cancels after it, disconnect-notification requests '
             'before and after the loss whose callbacks do nothing / ask again / submit a command; in 40% the caller attaches nothing '
             'to the Deferreds and their state is read after every operation; 15% of the commands are passed as bytes '
-            'holding non-ASCII bytes); thorough adds every history of '
+            'holding non-ASCII bytes, 8% are empty command lines; in a quarter the application closes the transport '
+            'itself some operations before the loss is delivered); thorough adds every history of '
             'length <= 6 over {submit, cancel 0, cancel 1, reply, lose}')
     trusted = ['Twisted LineOnlyReceiver / StringTransport; the Deferred callbacks of the harness']
     assumptions = ['connectionLost is delivered once, and no bytes arrive after it',
